@@ -209,6 +209,10 @@ func (x *Exec) hashcatForm(e *Env, n *ast.CallExpr) Value {
 			unsupported("%s: hashcat: first argument must be a hash name or a crypto.Hash value", e.where)
 		}
 		h = x.newHash("cryptohash", fv.T)
+		if hs, ok := specConstsNow["HS"]; ok {
+			// generic hasher: the specification is instantiated per digest size HS
+			h.Size = IntC(hs)
+		}
 	}
 	for _, a := range n.Args[1:] {
 		if call, ok := a.(*ast.CallExpr); ok {
